@@ -67,7 +67,9 @@ HARNESSES += [
   grow('single_gb', ('gb',), True, 0, [sc2(p, m, 3, MIND=1, TABW=8, PROBE=0) for p, m in ((6, 0), (7, 1))], K=3, tiers=('thorough',), timeout=3600),
   grow('single_pb', ('pb',), True, 0, [sc2(p, m, 1, TABW=8, PROBE=0) for p, m in ((7, 0), (7, 1), (8, 0), (8, 1))], K=4),
   #seqops('seq_gb_gb', ('gb', 'gb'), 5, (0, 3, 6), defines_extra={'MIND': 1, 'TABW': 8, 'NODESTROY': 1}, cbmc=['--unwind', '20', '--unwindset', 'vp_memset.0:66,vp_memset.1:66', '--object-bits', '10']),
-] + [grow('pb2_p%d' % p, ('pb', 'pb'), False, 2, [sc2(p, 0, 2, **({'PROBE': 0} if p else {}))]) for p in (0, 1, 2, 3)] + [
+] + [grow('pb2_p%d' % p, ('pb', 'pb'), False, 2, [sc2(p, 0, 2, **({'PROBE': 0} if p else {}))], scenarios_thorough=[sc2(p, 0, 2, ROUNDS=3, **({'PROBE': 0} if p else {}))], timeout=1800) for p in (0, 1, 2, 3)] + [
+  grow('pb3', ('pb', 'pb', 'pb'), False, 1, [sc2(p, 0, 3, **({'PROBE': 0} if p else {})) for p in (0, 1, 2)], tiers=('thorough',), timeout=3600),
+  grow('gb_gb', ('gb', 'gb'), False, 1, [sc2(p, 0, 6, **({'PROBE': 0} if p else {})) for p in (0, 2)], tiers=('thorough',), timeout=3600),
   grow('pb_gb', ('pb', 'gb'), False, 2, [sc2(p, m, 4, **({'PROBE': 0} if p else {})) for p, m in ((0, 0), (1, 0), (3, 0), (3, 1))], tiers=('thorough',), timeout=3600),
   grow('pb2_table', ('pb', 'pb'), True, 1, [sc2(7, 0, 2, PROBE=0, TABW=8), sc2(8, 0, 2, PROBE=0, TABW=8), sc2(7, 1, 2, PROBE=0, TABW=8)], tiers=('thorough',), timeout=3600),
   grow('gtal_pb', ('gtal', 'pb'), False, 1, [sc2(1, 0, 4, PROBE=0), sc2(0, 0, 4)], tiers=('thorough',), timeout=3600),
